@@ -493,12 +493,12 @@ Proof.
     inversion H; subst. constructor; [exact Ea|apply IH; reflexivity].
 Qed.
 
-Lemma pushes_shape l r : map_res push_mem_arg l = Ok r ->
-  r = map (fun x => MPushArg (fst x)) l /\ Forall (fun x => snd x = R64c \/ snd x = R32c) l.
+Lemma pushes_shape l r : map_res push_mem_arg l = Ok r -> r = map (fun x => MPushArg (fst x)) l.
 Proof.
-  intros H. apply map_res_ok in H. induction H as [|a b l r Hab H IH]; [split; [reflexivity|constructor]|].
-  destruct IH as [-> IH]. unfold push_mem_arg in Hab.
-  destruct (snd a) eqn:E; try discriminate; inversion Hab; subst; (split; [reflexivity|constructor; auto]).
+  intros H. apply map_res_ok in H. induction H as [|a b l r Hab H IH]; [reflexivity|].
+  rewrite IH. unfold push_mem_arg in Hab.
+  destruct (snd a); destruct tab_call_push_small, tab_call_push_fp; try discriminate;
+    injection Hab as <-; reflexivity.
 Qed.
 
 Definition is_argtoreg (o : mop) : Prop := exists r i, o = MArgToReg r i.
@@ -521,20 +521,18 @@ Lemma gen_call_shape tys rv ops : gen_call tys rv = Ok ops ->
           ++ match rv with Some t => [MRvFrom (determine_rv_location t)] | None => [] end
           ++ (if (if padded then ss + ss mod 16 else ss) =? 0 then []
               else [MAdd (if padded then ss + ss mod 16 else ss)])
-    /\ Forall is_argtoreg moves
-    /\ Forall (fun x => snd x = R64c \/ snd x = R32c) (call_mem tys).
+    /\ Forall is_argtoreg moves.
 Proof.
   unfold gen_call, call_mem, call_stack_size, call_padding. intros H.
   destruct (map_res push_mem_arg (rev (mem_args_of (arg_items tys)))) as [pushes| | |] eqn:Ep; unfold bind at 1 in H; try discriminate.
   destruct (map_res move_reg_arg (reg_args_of (arg_items tys))) as [moves| | |] eqn:Em; unfold bind at 1 in H; try discriminate.
   injection H as H. subst ops.
-  apply pushes_shape in Ep. destruct Ep as [-> Hf]. apply moves_shape in Em.
-  exists moves. split; [|split; [exact Em|]].
-  - replace (map MPushArg (rev (map fst (mem_args_of (arg_items tys)))))
+  apply pushes_shape in Ep. subst pushes. apply moves_shape in Em.
+  exists moves. split; [|exact Em].
+  replace (map MPushArg (rev (map fst (mem_args_of (arg_items tys)))))
       with (map (fun x : nat * rcls => MPushArg (fst x)) (rev (mem_args_of (arg_items tys))))
       by (rewrite <- map_rev, map_map; reflexivity).
-    reflexivity.
-  - apply Forall_forall. intros x Hx. rewrite Forall_forall in Hf. apply Hf. apply in_rev in Hx. exact Hx.
+  reflexivity.
 Qed.
 
 (* pushing the memory arguments right to left puts the k-th one at rsp + 8k *)
@@ -585,7 +583,7 @@ Lemma call_state tys rv ops s : gen_call tys rv = Ok ops ->
                     st_mem s' (st_rsp s' + 8 * Z.of_nat k) = Some (VArg i))
     /\ (forall a, st_rsp s <= a -> st_mem s' a = st_mem s a).
 Proof.
-  intros H. destruct (gen_call_shape _ _ _ H) as (moves & -> & Hmv & Hcls). cbn zeta.
+  intros H. destruct (gen_call_shape _ _ _ H) as (moves & -> & Hmv). cbn zeta.
   set (ss := 8 * len (call_mem tys)). set (padded := negb (ss mod 16 =? 0)).
   set (padops := if padded then [MSub (ss mod 16)] else []).
   replace (padops ++ map MPushArg (rev (map fst (call_mem tys))) ++ moves ++ [MCall] ++
@@ -630,7 +628,7 @@ Qed.
 Lemma call_balanced tys rv ops s : gen_call tys rv = Ok ops ->
   exists s', run s (abs_ops ops) = Some s' /\ st_rsp s' = st_rsp s.
 Proof.
-  intros H. destruct (gen_call_shape _ _ _ H) as (moves & -> & Hmv & _). cbn zeta.
+  intros H. destruct (gen_call_shape _ _ _ H) as (moves & -> & Hmv). cbn zeta.
   set (ss := 8 * len (call_mem tys)). set (padded := negb (ss mod 16 =? 0)).
   rewrite !abs_ops_app. rewrite run_app.
   assert (Hlen : len (map fst (call_mem tys)) = len (call_mem tys)) by (unfold len; now rewrite map_length).
@@ -671,23 +669,17 @@ Proof.
   induction 1 as [|x y la lb Hxy H IH]; cbn; [tauto|]. intros [He|Hin]; [inversion He; now subst|auto].
 Qed.
 
-Lemma class_int_only t :
-  tab_class_of_type t = R64c \/ tab_class_of_type t = R32c -> is_int_ty t = true.
-Proof. destruct t; cbn; intros [H|H]; try reflexivity; discriminate. Qed.
+(* every stack slot of every scalar is one eightbyte (fails to compile if the tree changes a slot size) *)
+Lemma tab_fp_slot_8 t : tab_fp_slot t = 8.
+Proof. destruct t; reflexivity. Qed.
 
-(* when gen_call succeeds every memory argument occupies an 8-byte slot *)
-Lemma call_ok_slots8 tys rv ops : gen_call tys rv = Ok ops ->
-  forall x, In x (arg_items tys) ->
+Lemma items_slots8 tys : forall x, In x (arg_items tys) ->
   match fst (snd x) with LStack _ size => size = 8 | LReg _ => True end.
 Proof.
-  intros H x Hx. destruct (gen_call_shape _ _ _ H) as (_ & _ & _ & Hcls).
-  destruct x as [i [l t]]. cbn [fst snd]. destruct l as [r|off size]; [exact I|].
-  assert (Hm : In (i, tab_class_of_type t) (call_mem tys)).
-  { unfold call_mem, mem_args_of. apply in_flat_map. exists (i, (LStack off size, t)). split; [exact Hx|]. cbn. auto. }
-  rewrite Forall_forall in Hcls. specialize (Hcls _ Hm). cbn [snd] in Hcls. apply class_int_only in Hcls.
+  intros x Hx. destruct x as [i [l t]]. cbn [fst snd]. destruct l as [r|off size]; [exact I|].
   unfold arg_items in Hx. apply in_combine_r in Hx.
   pose proof (Forall2_combine_In _ _ _ _ _ (arg_locs_sizes tys tab_int_regs tab_float_regs 16) Hx) as Hs.
-  cbn [slot_of] in Hs. rewrite Hcls in Hs. rewrite Hs. exact tab_int_slot_ok.
+  cbn [slot_of] in Hs. rewrite Hs. destruct (is_int_ty t); [exact tab_int_slot_ok|apply tab_fp_slot_8].
 Qed.
 
 Lemma enter_offsets items : forall so ops, enter_go so items = Ok ops ->
@@ -708,7 +700,7 @@ Proof.
     + assert (Hsz : size = 8) by (apply (H8 (j, (LStack o size, t))); left; reflexivity). subst size.
       assert (Hmore : exists more, enter_go (so + 8) rest = Ok more /\
                                    ops = MArgFromStack j (so + 16) (rcls_bits (tab_class_of_type t)) :: more).
-      { destruct (tab_class_of_type t); try discriminate;
+      { destruct (tab_class_of_type t); destruct tab_enter_small; try discriminate;
           (destruct (enter_go (so + 8) rest) as [more| | |]; unfold bind in H; try discriminate;
            injection H as <-; eexists; split; reflexivity). }
       destruct Hmore as (more & Hm & ->). unfold mem_args_of. cbn [flat_map fst snd app map].
@@ -728,7 +720,7 @@ Lemma caller_callee_agree tys rv ops_call ops_enter s :
 Proof.
   intros Hc He. destruct (call_state tys rv ops_call s Hc) as (s' & Hr & _ & Hm & _).
   exists s'. split; [exact Hr|]. intros i off bits Hin.
-  destruct (enter_offsets (arg_items tys) 0 ops_enter He (call_ok_slots8 tys rv ops_call Hc) i off bits Hin)
+  destruct (enter_offsets (arg_items tys) 0 ops_enter He (items_slots8 tys) i off bits Hin)
     as (k & Hk & ->).
   replace (st_rsp s' - 16 + (0 + 16 + 8 * Z.of_nat k)) with (st_rsp s' + 8 * Z.of_nat k) by lia.
   apply Hm. exact Hk.
@@ -767,4 +759,139 @@ Proof.
   destruct (frame_adjust _ _); unfold pops_of, pushes_of; cbn [flat_map app];
     change (tab_rbp :: get_callee_saved used) with ([tab_rbp] ++ get_callee_saved used);
     rewrite rev_app_distr; reflexivity.
+Qed.
+
+(* ------------------------------------------------------------------ wave 3: all signatures, stack order *)
+Lemma arg_locations_all tys :
+  map abs_loc (determine_arg_locations tys) = sysv_arg_places (map sty_of tys).
+Proof. apply arg_locations_current. intros t _ _. apply tab_fp_slot_8. Qed.
+
+Definition stack_offsets (ls : list aloc) : list Z :=
+  flat_map (fun l => match l with LStack o _ => [o] | LReg _ => [] end) ls.
+
+(* memory arguments sit left to right in consecutive eightbytes, whatever mixture of integer and
+   floating point arguments overflowed the registers *)
+Lemma stack_offsets_go tys : forall ir fr off k o,
+  nth_error (stack_offsets (arg_locs_go tab_int_slot tab_fp_slot ir fr off tys)) k = Some o ->
+  o = off + 8 * Z.of_nat k.
+Proof.
+  induction tys as [|t rest IH]; intros ir fr off k o H; cbn [arg_locs_go] in H.
+  - destruct k; discriminate.
+  - destruct (is_int_ty t).
+    + destruct ir as [|p ir']; unfold stack_offsets in H; cbn [flat_map app] in H; fold stack_offsets in H.
+      * destruct k as [|k]; cbn [nth_error] in H; [injection H as <-; lia|].
+        apply IH in H. rewrite tab_int_slot_ok in H. lia.
+      * apply IH in H. exact H.
+    + destruct fr as [|p fr']; unfold stack_offsets in H; cbn [flat_map app] in H; fold stack_offsets in H.
+      * destruct k as [|k]; cbn [nth_error] in H; [injection H as <-; lia|].
+        apply IH in H. rewrite tab_fp_slot_8 in H. lia.
+      * apply IH in H. exact H.
+Qed.
+
+Lemma stack_args_in_order tys k o :
+  nth_error (stack_offsets (determine_arg_locations tys)) k = Some o -> o = 16 + 8 * Z.of_nat k.
+Proof. apply stack_offsets_go. Qed.
+
+(* ------------------------------------------------------------------ wave 3: aggregates by value *)
+(* how the model's location of an argument reads as a psABI place *)
+Definition abs_xloc (x : xty * aloc) : xplace :=
+  match fst x, snd x with
+  | XT _, l => XAt (abs_loc l)
+  | XB _, LStack off size => XInMem (off - 16) size
+  | XB _, LReg r => XInRegs [phys r]
+  end.
+Definition places_x (tys : list xty) : list xplace :=
+  map abs_xloc (combine tys (determine_arg_locations_x tys)).
+
+(* a blob seen as a psABI aggregate with the given eightbyte classes ([] = MEMORY) *)
+Definition xsty_of (cls_of : Z -> list acls) (t : xty) : xsty :=
+  match t with XT t => XScalar (sty_of t) | XB size => XAggr size (cls_of size) end.
+
+(* struct { long a; } is class INTEGER and travels in %rdi; ppci puts every blob on the stack *)
+Lemma struct_small_refuted :
+  places_x [XB 8] <> sysv_arg_places_x [XAggr 8 [INTEGER]].
+Proof. vm_compute. discriminate. Qed.
+
+(* even for class MEMORY the layout differs when a size is not a multiple of 8: 20 bytes take 24 *)
+Lemma struct_memory_size_refuted :
+  places_x [XB 20; XB 24] <> sysv_arg_places_x [XAggr 20 []; XAggr 24 []].
+Proof. vm_compute. discriminate. Qed.
+
+(* class MEMORY aggregates whose size is a multiple of 8, mixed with any scalars: ppci = psABI *)
+Definition blob_ok (t : xty) : Prop := match t with XT _ => True | XB size => size mod 8 = 0 end.
+
+Lemma roundup8_mult n : n mod 8 = 0 -> roundup8 n = n.
+Proof. unfold roundup8. intros H. lia. Qed.
+
+Lemma places_x_memory_general tys : forall ni nf stk,
+  Forall blob_ok tys ->
+  map abs_xloc (combine tys (arg_locs_x (skipn ni tab_int_regs) (skipn nf tab_float_regs) (16 + stk) tys))
+  = sysv_assign_x ni nf stk (map (xsty_of (fun _ => [])) tys).
+Proof.
+  induction tys as [|t rest IH]; intros ni nf stk Hok; [reflexivity|].
+  inversion Hok as [|? ? Ht Hrest]; subst.
+  destruct t as [t|size]; cbn [arg_locs_x map xsty_of sysv_assign_x combine].
+  - rewrite classify_sty_of. destruct (is_int_ty t) eqn:Hty.
+    + rewrite (skipn_nth_error tab_int_regs ni).
+      pose proof (int_reg_at tab_int_regs tab_int_regs_ok ni) as Hr.
+      destruct (nth_error tab_int_regs ni) as [p|] eqn:E.
+      * destruct Hr as (g & Hg & H1 & H2). rewrite Hg. cbn [combine map]. f_equal.
+        -- unfold abs_xloc. cbn [fst snd abs_loc]. do 2 f_equal. destruct (is_32_ty t); cbn [phys]; now rewrite ?H1, ?H2.
+        -- apply IH. exact Hrest.
+      * rewrite Hr. cbn [combine map]. f_equal.
+        -- unfold abs_xloc. cbn [fst snd abs_loc]. do 2 f_equal. lia.
+        -- rewrite tab_int_slot_ok. replace (16 + stk + 8) with (16 + (stk + 8)) by lia.
+           replace (@nil (reg * reg)) with (skipn ni tab_int_regs)
+             by (rewrite (skipn_nth_error tab_int_regs ni), E; reflexivity).
+           apply IH. exact Hrest.
+    + rewrite (skipn_nth_error tab_float_regs nf).
+      pose proof (float_reg_at tab_float_regs tab_float_regs_ok nf) as Hr.
+      destruct (nth_error tab_float_regs nf) as [p|] eqn:E.
+      * destruct Hr as (Hlt & H1 & H2). rewrite Hlt. cbn [combine map]. f_equal.
+        -- unfold abs_xloc. cbn [fst snd abs_loc]. do 2 f_equal. destruct t; cbn [phys]; try discriminate; now rewrite ?H1, ?H2.
+        -- apply IH. exact Hrest.
+      * rewrite Hr. cbn [combine map]. f_equal.
+        -- unfold abs_xloc. cbn [fst snd abs_loc]. do 2 f_equal. lia.
+        -- rewrite tab_fp_slot_8. replace (16 + stk + 8) with (16 + (stk + 8)) by lia.
+           replace (@nil (reg * reg)) with (skipn nf tab_float_regs)
+             by (rewrite (skipn_nth_error tab_float_regs nf), E; reflexivity).
+           apply IH. exact Hrest.
+  - cbn [blob_ok] in Ht. rewrite (roundup8_mult _ Ht). cbn [combine map]. f_equal.
+    + unfold abs_xloc. cbn [fst snd]. f_equal. lia.
+    + replace (16 + stk + size) with (16 + (stk + size)) by lia. apply IH. exact Hrest.
+Qed.
+
+Lemma places_x_memory tys : Forall blob_ok tys ->
+  places_x tys = sysv_arg_places_x (map (xsty_of (fun _ => [])) tys).
+Proof. intros H. exact (places_x_memory_general tys 0%nat 0%nat 0 H). Qed.
+
+(* alignment of rsp at the call when blobs are copied to the stack *)
+Lemma call_rsp_drop_aligned ss : ss mod 8 = 0 -> (call_rsp_drop ss) mod 16 = 0.
+Proof.
+  intros H. unfold call_rsp_drop, call_padding. destruct (ss mod 16 =? 0) eqn:E; cbn [negb]; lia.
+Qed.
+
+Lemma call_rsp_drop_refuted : exists ss, 0 < ss /\ (call_rsp_drop ss) mod 16 <> 0.
+Proof. exists 4. split; [lia|]. vm_compute. discriminate. Qed.
+
+Lemma call_blob_alignment_refuted : (call_rsp_drop_x [XB 4]) mod 16 <> 0.
+Proof. vm_compute. discriminate. Qed.
+
+Lemma sumZ_mod8 l : Forall (fun z => z mod 8 = 0) l -> sumZ l mod 8 = 0.
+Proof. induction 1 as [|z l Hz H IH]; cbn [sumZ]; [reflexivity|lia]. Qed.
+
+Lemma call_mem_sizes_x_mod8 tys : Forall blob_ok tys ->
+  Forall (fun z => z mod 8 = 0) (call_mem_sizes_x tys).
+Proof.
+  intros H. unfold call_mem_sizes_x. apply Forall_forall. intros z Hz.
+  apply in_flat_map in Hz. destruct Hz as ([t l] & Hin & Hz). cbn [fst snd] in Hz.
+  apply in_combine_l in Hin. rewrite Forall_forall in H. specialize (H _ Hin).
+  destruct t as [t|size]; [destruct l; [destruct Hz|destruct Hz as [<-|[]]; reflexivity]|].
+  destruct Hz as [<-|[]]. exact H.
+Qed.
+
+Lemma call_alignment_x tys : Forall blob_ok tys -> (call_rsp_drop_x tys) mod 16 = 0.
+Proof.
+  intros H. unfold call_rsp_drop_x. apply call_rsp_drop_aligned. apply sumZ_mod8.
+  apply call_mem_sizes_x_mod8. exact H.
 Qed.
